@@ -324,6 +324,115 @@ def check_compose(case):
                                                          'name': s['name']} for s in case['steps']]}}
 
 
+# ---------------------------------------------------------------------------
+# wide buses: several hundred connector pairs at once (finite sweep)
+
+BUS_WIDTHS = {'quick': [255, 256, 257, 300], 'thorough': [128, 255, 256, 257, 258, 300, 511, 513, 1025]}
+BUS_ENTRIES = ['extend_default', 'extend_default_right', 'connect_circuit', 'connect_circuit_right', 'connect_left',
+               'connect_right', 'connect_inputs', 'partial_left']
+
+
+def bus_configs(tier):
+    return [{'w': w, 'entry': e, 'name': ['', 'bus', 'bus'][(k + i) % 3], 'add_prefix': (k + i) % 2 == 0}
+            for k, w in enumerate(BUS_WIDTHS[tier]) for i, e in enumerate(BUS_ENTRIES)]
+
+
+def run_bus(case):
+    import random
+    cirbo_core()
+    w, entry, name, add_prefix = case['w'], case['entry'], case['name'], case['add_prefix']
+    base = {'inputs': [f'a{i}' for i in range(w)], 'outputs': [f'n{i}' for i in range(w)],
+            'gates': [[f'a{i}', 'INPUT', []] for i in range(w)] + [[f'n{i}', 'NOT', [f'a{i}']] for i in range(w)]}
+    other = {'inputs': [f'b{i}' for i in range(w)], 'outputs': [f'y{i}' for i in range(w)],
+             'gates': [[f'b{i}', 'INPUT', []] for i in range(w)] + [[f'y{i}', 'XOR', [f'b{i}', f'b{(i + 1) % w}']] for i in range(w)]}
+    c, oc = build.build(base), build.build(other)
+    osnap = wellformed.snapshot(oc)
+    kw = dict(name=name, add_prefix=add_prefix)
+    right = entry in ('extend_default_right', 'connect_circuit_right', 'connect_right', 'connect_inputs')
+    if entry == 'connect_inputs':
+        this, oth = list(base['inputs']), list(other['inputs'])
+    elif entry == 'partial_left':
+        # all but the last attached input, from the base outputs in reverse
+        this, oth = list(reversed(base['outputs']))[:w - 1], list(other['inputs'])[:w - 1]
+    elif right:
+        this, oth = list(base['inputs']), list(other['outputs'])
+    else:
+        this, oth = list(base['outputs']), list(other['inputs'])
+    what = f'{entry} with {len(this)} connector pairs (name={name!r}, add_prefix={add_prefix})'
+    try:
+        if entry == 'extend_default':
+            ret = c.extend_circuit(oc, **kw)
+        elif entry == 'extend_default_right':
+            ret = c.extend_circuit(oc, right_connect=True, **kw)
+        elif entry in ('connect_circuit', 'partial_left'):
+            ret = c.connect_circuit(oc, list(this), list(oth), **kw)
+        elif entry == 'connect_circuit_right':
+            ret = c.connect_circuit(oc, list(this), list(oth), right_connect=True, **kw)
+        elif entry == 'connect_left':
+            ret = c.connect_left(oc, list(this), **kw)
+        elif entry == 'connect_right':
+            ret = c.connect_right(oc, list(oth), **kw)
+        else:
+            ret = c.connect_inputs(oc, **kw)
+    except cirbo_core().CirboError as e:
+        raise Violation('valid_composition_rejected', f'{what} raised {type(e).__name__}: {e}')
+    ref = reference_compose(base, other, this, oth, right, name, add_prefix, set())
+    assert ref[0] == 'ok', ref
+    _, model, m = ref
+    if ret is not c:
+        raise Violation('return_value', f'{what} does not return the base circuit')
+    if wellformed.snapshot(oc) != osnap:
+        raise Violation('other_modified', f'{what} modified the attached circuit')
+    if list(c.inputs) != model['inputs']:
+        raise Violation('inputs', f'{what}: inputs differ from the documented composition (got {len(c.inputs)}, expected {len(model["inputs"])})')
+    if list(c.outputs) != model['outputs']:
+        raise Violation('outputs', f'{what}: outputs differ from the documented composition (got {len(c.outputs)}, expected {len(model["outputs"])})')
+    pr = wellformed.problems(c)
+    if pr:
+        raise Violation('wellformed', f'after {what}: ' + '; '.join(pr[:3]))
+    rs = random.Random(case['w'] * 31 + len(entry))
+    pats = [rs.getrandbits(64) for _ in model['inputs']]
+    mask = (1 << 64) - 1
+    t_mod = refsem.tables(model, pats, mask)
+    res = refsem.from_circuit(c)
+    try:
+        t_res = refsem.tables(res, pats, mask)
+    except (refsem.ArityError, ValueError, KeyError, AssertionError) as e:
+        raise Violation('result_malformed', f'{what}: {e}')
+    for o in model['outputs']:
+        if t_res[o] != t_mod[o]:
+            raise Violation('truth_table', f'{what}: output {o} differs from the documented composition on sampled rows')
+    for j in (0, 1):
+        x = [bool((p >> j) & 1) for p in pats]
+        if c.evaluate(x) != [bool((t_mod[o] >> j) & 1) for o in model['outputs']]:
+            raise Violation('evaluate', f'{what}: evaluate on a sampled row')
+    if name:
+        blk = c.get_block(name)
+        if list(blk.inputs) != [m(i) for i in other['inputs']] or len(blk.outputs) != w:
+            raise Violation('block_interface', f'{what}: block {name!r} has {len(blk.inputs)} inputs, {len(blk.outputs)} outputs')
+    return len(this)
+
+
+def bus_sweep(tier, shard, nshards, seed):
+    done = pairs = 0
+    sample = None
+    for idx, case in enumerate(bus_configs(tier)):
+        if idx % nshards != shard:
+            continue
+        try:
+            pairs += run_bus(case)
+        except Violation as v:
+            v.case = case
+            raise
+        except BaseException as e:  # noqa
+            e.case = case
+            raise
+        done += 1
+        sample = case
+    return {'evaluations': done, 'distinct_nontrivial': done, 'exhaustive': True,
+            'counters': {'connector_pairs': pairs}, 'samples': [sample] if sample else []}
+
+
 SPEC = {
     'id': 'C10',
     'rule': ('Base + 1-3 attached Hypothesis netlists (<=4 inputs, <=10 gates each; disjoint or clashing labels; attached '
@@ -335,9 +444,11 @@ SPEC = {
              'table, and the calls that must be rejected; plus attached circuit unchanged, wellformed(), agreement of '
              'evaluate / evaluate_full_circuit, and block extraction == attached circuit. Non-trivial: >=1 connector pair '
              'and both circuits have a non-input gate.'
-             ' Added during the build: repeated replaced-side connector pairs (an accepted duplicate pair is held to the composition of the distinct pairs), live connector lists, full explicit connector lists, attached circuits whose labels already carry the block prefix.'),
+             ' Added during the build: repeated replaced-side connector pairs (an accepted duplicate pair is held to the composition of the distinct pairs), live connector lists, full explicit connector lists, attached circuits whose labels already carry the block prefix, and a finite sweep of buses of 128-1025 connector pairs through every entry point.'),
     'assumptions': ['reference composition model in props/c10.py written from the connect_circuit docstring'],
     'subs': [Sub('compose', cases, check_compose, {'quick': 2500, 'thorough': 200000})],
+    'sharded': {'wide_bus': bus_sweep},
+    'replay': {'wide_bus': run_bus},
     'required_classes': {'compose': ['entry:connect_circuit', 'entry:connect_left', 'entry:connect_right',
                                      'entry:connect_inputs', 'entry:extend_default', 'entry:extend_explicit',
                                      'entry:add_circuit', 'right_to_internal_gate', 'right_repeated_attached_gate',
